@@ -15,9 +15,12 @@ Lims == << << <<1, 5>>, <<5, 2>> >>,      \* the defaults 0.2 .. 2.5
            << <<1, 2>>, <<2, 1>> >>,      \* 0.5 .. 2  (ties with pattern 5)
            << <<3, 5>>, <<7, 5>> >>,      \* 0.6 .. 1.4
            << <<1, 10>>, <<10, 1>> >>,    \* 0.1 .. 10
-           << <<1, 4>>, <<4, 1>> >> >>    \* 0.25 .. 4 (ties with the 1 : 4 patterns)
+           << <<1, 4>>, <<4, 1>> >>,      \* 0.25 .. 4 (ties with the 1 : 4 patterns)
+           << <<0, 1>>, <<5, 2>> >>,      \* a limit of exactly 0 is a limit like any other: nothing is too quiet ...
+           << <<1, 5>>, <<0, 1>> >> >>    \* ... and with an upper limit of 0 every window with a positive ratio is too loud
 Thrs == << << <<9, 10>>, TRUE >>, << <<1, 2>>, TRUE >>, << <<3, 1>>, FALSE >>, << <<8, 1>>, FALSE >>,
-          << <<1, 1>>, TRUE >> >>        \* normalised threshold 1: "reject only the loudest window(s)"
+          << <<1, 1>>, TRUE >>,          \* normalised threshold 1: "reject only the loudest window(s)"
+          << <<9, 10>>, TRUE >>, << <<3, 1>>, FALSE >> >>
 \* three of the five (limits, threshold) pairs for the secondary configurations
 Lims3 == << Lims[1], Lims[2], Lims[5] >>
 Thrs3 == << Thrs[2], Thrs[3], Thrs[5] >>
